@@ -60,6 +60,21 @@ func main() {
 				fmt.Println(shortName(fn))
 			}
 		}
+	case "effects":
+		w, err := Load(repoDir(), "")
+		if err != nil {
+			fmt.Fprintln(os.Stderr, err)
+			os.Exit(2)
+		}
+		e := w.Effects()
+		for _, fn := range w.ModuleFuncs() {
+			for _, x := range e.Direct(fn) {
+				if x.Op == "get" {
+					continue
+				}
+				fmt.Printf("%-8s %-28s %-10s %s  %s\n", x.Op, x.Family, x.DB, shortName(fn), instrPos(w, x.Ins))
+			}
+		}
 	case "variants":
 		// mixvet variants <ID> [substr]: run the self-test corpus only
 		only := ""
